@@ -41,6 +41,8 @@ var (
 	c09again       = core.RegCounter("c09.batches_finished_again_without_reset")
 	c09grown       = core.RegCounter("c09.batches_grown_after_a_verdict_and_finished_again")
 	c09reset       = core.RegCounter("c09.verifier_reused_after_reset")
+	c09forceMid    = core.RegCounter("c09.forced_non_expansion_after_additions")
+	c09rx          = core.RegCounter("c09.entries_added_from_a_reused_receive_buffer")
 	c09force       = core.RegCounter("c09.force_no_expansion")
 	c09batchOnly   = core.RegCounter("c09.verify_batch_only_calls")
 	c09boTrue      = core.RegCounter("c09.verify_batch_only_true")
@@ -348,6 +350,29 @@ type c09Node struct {
 	oneOpts bool
 	ovar    ed25519.Options
 	vvar    ed25519.VerifyOptions // ... and one VerifyOptions variable that the Options variable points to
+	// ... and some read every transaction's key and message into ONE receive buffer each, overwritten by the
+	// next transaction (a server reading requests into one buffer).  The signature is not included: a batch
+	// entry with a cofactorless preset keeps the caller's signature slice until the verdict (section 8).
+	rx     bool
+	pkbuf  []byte
+	msgbuf []byte
+}
+
+// recv returns the key and message to pass for transaction x: x's own slices, or the node's receive buffers
+// holding a copy of them.
+func (nd *c09Node) recv(x *c09Tx) (pk, msg []byte) {
+	if !nd.rx {
+		return x.pk, x.msg
+	}
+	if nd.pkbuf == nil {
+		nd.pkbuf, nd.msgbuf = make([]byte, 0, 96), make([]byte, 0, 512)
+	}
+	nd.pkbuf = append(nd.pkbuf[:0], x.pk...)
+	nd.msgbuf = append(nd.msgbuf[:0], x.msg...)
+	if x.pk == nil {
+		return nil, nd.msgbuf
+	}
+	return nd.pkbuf, nd.msgbuf
 }
 
 // o returns the options to pass for transaction x: x's own struct, or the node's one variable set to it.
@@ -389,6 +414,7 @@ func runC09(e *Env, r *core.Run) {
 	for ni := 0; ni < nnodes && len(r.Main.Fails()) == 0; ni++ {
 		r.Count(c09nodes)
 		nd := &c09Node{id: ni, oneOpts: t.W(2) == 1}
+		nd.rx = t.W(2) == 1
 		if nd.oneOpts {
 			r.Count(c09oneOpts)
 		}
@@ -505,11 +531,16 @@ func c09Batch(r *core.Run, e *Env, nd *c09Node, txs []c09Tx, chunk []int, decide
 		r.Count(c09reset)
 	}
 	bv := nd.bv
+	// forced non-expansion: before the first addition, or at a tape-drawn point between additions
+	// (the property quantifies over any sequence of additions, resets and forced non-expansion)
 	forced := false
+	forceAt := -1
 	if t.W(6) == 0 {
 		bv.ForceNoPublicKeyExpansion()
 		forced = true
 		r.Count(c09force)
+	} else if len(chunk) > 0 && t.W(6) == 0 {
+		forceAt = 1 + t.W(len(chunk))
 	}
 	basePath := t.W(5)
 	var want []bool
@@ -523,28 +554,32 @@ func c09Batch(r *core.Run, e *Env, nd *c09Node, txs []c09Tx, chunk []int, decide
 			path = t.W(4) // mixed add paths inside one batch
 		}
 		isDefaultOpts := x.opts.Hash == 0 && x.opts.Context == "" && x.opts.Verify == ed25519.VerifyOptionsDefault
+		pk, msg := nd.recv(&x)
 		switch path {
 		case 0:
 			if isDefaultOpts && t.W(2) == 0 {
-				bv.Add(x.pk, x.msg, x.sig)
+				bv.Add(pk, msg, x.sig)
 			} else {
-				bv.AddWithOptions(x.pk, x.msg, x.sig, nd.o(&x))
+				bv.AddWithOptions(pk, msg, x.sig, nd.o(&x))
 			}
 		case 1:
 			ex, _ := txs[ti].expanded(t.W(2) == 1) // nil on failure: the batch must mark the entry invalid
 			if isDefaultOpts && t.W(2) == 0 {
-				bv.AddExpanded(ex, x.msg, x.sig)
+				bv.AddExpanded(ex, msg, x.sig)
 			} else {
-				bv.AddExpandedWithOptions(ex, x.msg, x.sig, nd.o(&x))
+				bv.AddExpandedWithOptions(ex, msg, x.sig, nd.o(&x))
 			}
 		case 2:
 			if isDefaultOpts && t.W(2) == 0 {
-				nd.cv.Add(bv, x.pk, x.msg, x.sig)
+				nd.cv.Add(bv, pk, msg, x.sig)
 			} else {
-				nd.cv.AddWithOptions(bv, x.pk, x.msg, x.sig, nd.o(&x))
+				nd.cv.AddWithOptions(bv, pk, msg, x.sig, nd.o(&x))
 			}
 		default:
-			bv.AddWithOptions(x.pk, x.msg, x.sig, nd.o(&x))
+			bv.AddWithOptions(pk, msg, x.sig, nd.o(&x))
+		}
+		if nd.rx {
+			r.Count(c09rx)
 		}
 		want = append(want, x.want)
 		all = all && x.want
@@ -553,8 +588,14 @@ func c09Batch(r *core.Run, e *Env, nd *c09Node, txs []c09Tx, chunk []int, decide
 		hasCancelM = hasCancelM || x.kind == "cancelling-"
 		r.Count(c09entries)
 	}
-	for _, ti := range chunk {
+	for k, ti := range chunk {
 		addEntry(ti)
+		if k+1 == forceAt {
+			bv.ForceNoPublicKeyExpansion()
+			forced = true
+			r.Count(c09force)
+			r.Count(c09forceMid)
+		}
 	}
 	n := len(chunk)
 	if n == 0 {
